@@ -37,7 +37,7 @@ type exCall struct {
 	id        int
 	key       int
 	style     string
-	work      string // value | early | never | twice | ratelimit
+	work      string // value | early | never | twice | ratelimit | async
 	wait      time.Duration
 	start     bool // start-style (no outcome)
 	callStamp int64
@@ -128,6 +128,15 @@ func (r *exRun) workFn(call *exCall, body, tail func()) bigbuff.WorkFunc {
 			resolve(e.res, e.err)
 			resolve(&exRes{-1}, nil)
 		case "never":
+		case "async":
+			// resolves from another goroutine at about the moment the work function returns: the library's own
+			// fallback resolve and this one race; exactly one of them must win
+			go func() {
+				if tail != nil {
+					spin(3)
+				}
+				resolve(e.res, e.err)
+			}()
 		}
 		e.end = core.Now()
 	}
@@ -235,7 +244,7 @@ func (r *exRun) issue(call *exCall, rng interface{ IntN(int) int }) {
 }
 
 var exStyles = []string{"Call", "CallAfter", "CallAsync", "CallAfterAsync", "Start", "StartAfter", "Options", "Options", "Options"}
-var exWorks = []string{"value", "early", "early", "never", "twice", "ratelimit"}
+var exWorks = []string{"value", "early", "early", "never", "twice", "ratelimit", "async", "async"}
 
 func runExclusive(c *core.Ctx, keys, callers, perCaller int) *exRun {
 	r := &exRun{c: c, e: new(bigbuff.Exclusive), keys: keys, active: make([]atomic.Int32, keys), rlCtx: context.Background()}
